@@ -113,7 +113,10 @@ func c13LoadFaults(t *testing.T, rep *verifkit.Report, docs []c13LoadDoc, last i
 		rep.Event("write_fault_no_fault_controls")
 		size := len(want)
 
-		cuts := []int{0, 1, 64, 512, size - 1, size, size + 4096}
+		cuts := []int{0, 64, size - 1, size + 4096}
+		if verifkit.Thorough() {
+			cuts = []int{0, 1, 64, 512, size - 1, size, size + 4096}
+		}
 		for i := 0; i < nRandom; i++ {
 			cuts = append(cuts, rng.Intn(size))
 		}
